@@ -1,5 +1,5 @@
 //! C20 — display names follow the documented precedence and macro substitution. Exhaustive over
-//! all 4^8 records of the eight display tags and all macro patterns up to a length.
+//! all 5^8 records of the eight display tags and all macro patterns up to a length.
 
 use super::common::Verdict;
 use crate::engine::{guarded, par_for, Local, Run, Tier};
@@ -94,6 +94,10 @@ const TAGS: [&str; 8] = ["dis", "disMacro", "disKey", "name", "def", "tag", "nav
 fn tag_value(tag: &str, variant: usize) -> V {
     // variants 1, 2 and 3: three values of different kinds
     match (tag, variant) {
+        // variant 4: present but empty
+        ("id", 4) => V::Ref("e".into(), Some(String::new())),
+        ("def", 4) => V::Sym("e".into()),
+        (_, 4) => V::str(""),
         ("dis", 3) => V::numu(21.5, "°C"),
         ("disMacro", 3) => V::str("no variables {here} <x>"),
         ("disKey", 3) => V::num(42.0),
@@ -124,8 +128,8 @@ fn record(code: usize) -> Tags {
     let mut c = code;
     let mut t: Vec<(&str, V)> = vec![];
     for tag in TAGS {
-        let v = c % 4;
-        c /= 4;
+        let v = c % 5;
+        c /= 5;
         if v > 0 {
             t.push((tag, tag_value(tag, v)));
         }
@@ -211,11 +215,11 @@ fn patterns_of_len(len: usize, idx: usize) -> String {
 pub fn run(tier: Tier) -> i32 {
     let mut run = Run::new("C20", tier, "exploration");
     let maxlen = tier.pick(6usize, 7);
-    run.rule = format!("all 4^8 records (each display tag absent / three values of different kinds) with and without default and through Dict::dis(); every macro pattern of length <= {maxlen} over {{$ {{ }} < > a b B 1 _ space é}} against 5 scopes (incl. values whose text contains variables, empty values, nine kinds) and a localiser (one translation contains variables); every one of 22 variable forms between every pair of 106 characters (all printable ASCII, line breaks, 2-/3-/4-byte and combining characters) or none, two variables around every character, all triples of variable forms in three layouts; reference = hand-written scanner; non-trivial = pattern containing '$' / record with >= 1 display tag");
+    run.rule = format!("all 5^8 records (each display tag absent / three values of different kinds / present but empty) with and without default and through Dict::dis(); every macro pattern of length <= {maxlen} over {{$ {{ }} < > a b B 1 _ space é}} against 5 scopes (incl. values whose text contains variables, empty values, nine kinds) and a localiser (one translation contains variables); every one of 22 variable forms between every pair of 106 characters (all printable ASCII, line breaks, 2-/3-/4-byte and combining characters) or none, two variables around every character, all triples of variable forms in three layouts; reference = hand-written scanner; non-trivial = pattern containing '$' / record with >= 1 display tag");
     run.assume("text of a value that is neither Str nor Ref is Value::to_string() (delegated to the library; C20 is about which tag and which substitution)");
     run.assume("macro names are [a-z][A-Za-z0-9_]* taken greedily; $<key> has a non-empty key without '>'");
     crate::engine::quiet_panics();
-    let l = par_for(65536, |code, local| {
+    let l = par_for(390_625, |code, local| {
         let rec = record(code);
         local.eval();
         if !rec.is_empty() {
@@ -278,6 +282,29 @@ pub fn run(tier: Tier) -> i32 {
         }
     });
     run.absorb(l);
+    // distant interactions: two variable forms separated by 1, 8, 30, 200 characters of text
+    let l = par_for(VARS.len() * VARS.len(), |k, local| {
+        let (i, j) = (k / VARS.len(), k % VARS.len());
+        for gap in [1usize, 8, 30, 200] {
+            for filler in ["x", "é", " .[(%\\"] {
+                let g: String = filler.chars().cycle().take(gap).collect();
+                run_pattern(&format!("{}{g}{}", VARS[i], VARS[j]), nscopes, local);
+                run_pattern(&format!("{g}{}{g}{}{g}{}", VARS[i], VARS[j], VARS[i]), nscopes, local);
+            }
+        }
+    });
+    run.absorb(l);
+    // history independence: one pattern after another (all ordered pairs of 66 patterns x 5 scopes)
+    {
+        let mut pats: Vec<String> = VARS.iter().map(|v| format!("[{v}] x")).collect();
+        pats.extend(VARS.iter().map(|v| format!("{v}{v}")));
+        pats.extend(VARS.iter().map(|v| format!("$ab {v} ${{a}}")));
+        let op = |p: &String| -> String {
+            (0..nscopes).map(|s| format!("{:?}", check_pattern(p, s))).collect::<Vec<_>>().join("|")
+        };
+        let l = super::common::history_pairs("dis-macro", &pats, &op, &|p: &String| json!(p));
+        run.absorb(l);
+    }
     run.require(run.counter("neighbour-patterns") > 100_000, "neighbour sweep too small");
     for t in TAGS {
         run.require(run.counter(&format!("decisive:{t}")) > 0, &format!("tag {t} never decisive"));
